@@ -1,6 +1,21 @@
 (* C03 — level-triggered convergence across changes, restarts and downtime.
-   Statements only; proofs in Proofs/CycleWorld.v; the model (Model/CycleWorld.v) is tied to the
-   real operator by replaying recorded histories through its acceptor (harness/kv/cw_tie.py). *)
+   Statements only; proofs in Proofs/CycleWorld.v, Proofs/CycleCalm.v, Proofs/Retrigger.v.  The closed-loop model
+   (Model/CycleWorld.v) is tied to the real operator by replaying recorded histories through its acceptor
+   (harness/kv/cw_tie.py); the model of application.apply (Model/PatchObj.v) by the D:apply_retrigger differential.
+
+   Clause table (statement of C03 -> what states it):
+   | clause                                                              | stated by                                                        | status |
+   | changes made while the operator is down / between crash and restart | C03_downtime_accumulates + C03_calm_after_start                  | full (one accumulated view, any number of edits) |
+   | changes made while the operator runs, object at rest                | C03_calm_after_edit                                              | full |
+   | changes made while a cycle is still open                            | C03_absorbed_change_refuted (F13), C03_reverted_change_refuted (F15) | refuted: two views queued is outside [calm] |
+   | once changes stop and handlers stop failing, handling terminates    | C03_converges (+ _bounded, _from_precalm, C03_rank_decreases, C03_calm_is_invariant, C03_forced_step_is_execution) | full on the model, from every calm state, after any finite prefix of outcomes |
+   | ... after a write conflict on the finalizer patch                   | C03_carried_patch_stall_refuted (F14)                            | refuted |
+   | every selected handler has completed against the final state        | C03_converges (served), C03_served_exactly_once                   | full for the handlers pending when failures stop; handlers finished earlier in an open cycle: F13 |
+   | last-handled state equals that state, no progress records remain    | C03_converges; C03_closing_sound, C03_not_closed_before_done      | full |
+   | the framework itself stops writing                                  | C03_stops_writing, C03_rest_is_stable, C03_fixpoint_sound_partial | full (a settled view yields no patch; at rest no operator step is enabled) |
+   | a cycle that leaves something outstanding re-triggers itself        | C03_unfinished_cycle_retriggers, C03_quiet_only_when_done, C03_progress | full (function level: also the zero-delay touch) |
+   | for every interleaving / delivery timing (quantifier)               | label lists of the LTS are universally quantified in the safety theorems; liveness is for the forced schedule of the calm phase (one FIFO worker: the schedule is forced) | deletion, resume handlers, filters, latency > 0: monitored on the real operator only |
+   Hypotheses are met by the real operator: C03_calm_checkable + the calm-state count in the evidence. *)
 From Coq Require Import Arith List Bool.
 From KV Require Import Model.CycleWorld Proofs.CycleWorld.
 From KV Require Model.PatchObj Proofs.Retrigger.
